@@ -87,6 +87,9 @@ func runP7Sign(sc M) {
 			}
 		}}
 	}
+	if sc["busy"] == true {
+		signer = &busySigner{Signer: testKey(key)}
+	}
 	var der []byte
 	var oid asn1.ObjectIdentifier
 	var signedValue []byte // the value octets the messageDigest must cover
@@ -114,6 +117,18 @@ func runP7Sign(sc M) {
 		}
 		return e
 	})
+	if err != nil && sc["busy"] == true {
+		// the token was busy: the caller asks again (now it answers); whatever is returned as a success must be a valid SignedData
+		o, err = guard(func() error {
+			var e error
+			if ct == "spc" {
+				der, e = authenticode.SignAuthenticode(signer, cert, bytes.NewReader(content), crypto.SHA256)
+			} else {
+				der, e = pkcs7.SignPKCS7(signer, cert, oid, content)
+			}
+			return e
+		})
+	}
 	ev := M{"sc": id, "op": "sign", "ct": ct, "size": size, "key": key, "issuer": issuer, "serial": serial, "res": "ok", "outcome": o.Kind, "readable": false,
 		"sym": M{"content": "none", "signers": []M{}}, "facts": M{}, "openssl": M{"ran": false, "right": false, "wrong": false}, "mozilla": M{"right": false, "wrong": false},
 		"own": M{"parsed": false, "fields": false, "verify": "-", "verify_other": "-", "input_unchanged": true}, "encapsulated_expected": ct == "spc" || (size > 0 && ct != "data")}
@@ -263,6 +278,21 @@ func runP7Sign(sc M) {
 	own["input_unchanged"] = bytes.Equal(der, derBefore)
 	ev["own"] = own
 	emit(ev)
+}
+
+// busySigner: the first request takes more than a second and fails, later ones are served
+type busySigner struct {
+	crypto.Signer
+	n int
+}
+
+func (b *busySigner) Sign(r io.Reader, digest []byte, opts crypto.SignerOpts) ([]byte, error) {
+	b.n++
+	if b.n == 1 {
+		time.Sleep(1100 * time.Millisecond)
+		return nil, errInjected
+	}
+	return b.Signer.Sign(r, digest, opts)
 }
 
 // duringSigner runs `during` while the library waits for the signature
